@@ -929,12 +929,18 @@ pub async fn run_chaos<K: EngineKind>(plan: &Plan, scratch: &Path) -> RunOutcome
                     // election timer) keep every voter inside `broadcast_vote_requests`, where it
                     // does not answer the other candidates: most requests time out unanswered
                     let (reqs, answered, granted, rounds) = c.rec.online().vote_activity_since(c.now().saturating_sub(5000));
+                    // second mechanism: candidates that held a majority of the votes and still did
+                    // not become leader (a candidate abandons its round when a *refusing* voter
+                    // reports a more recent log, whatever the count says)
+                    let won = c.rec.online().won_rounds_without_leader_since(c.now().saturating_sub(5000), c.now());
                     let sig = if rounds >= 4 && reqs >= 8 && answered * 2 < reqs {
                         "no-leader-after-heal-and-quiet-period:vote-requests-unanswered-by-voters-busy-in-their-own-vote-rounds"
+                    } else if !won.is_empty() {
+                        "no-leader-after-heal-and-quiet-period:candidates-holding-a-vote-majority-did-not-become-leader"
                     } else {
                         "no-leader-after-heal-and-quiet-period"
                     };
-                    let roles = json!({"roles": roles, "last_5s": {"vote_requests": reqs, "answered": answered, "granted": granted, "rounds_ended": rounds}});
+                    let roles = json!({"roles": roles, "last_5s": {"vote_requests": reqs, "answered": answered, "granted": granted, "rounds_ended": rounds, "rounds_with_a_vote_majority_but_no_leader": won.iter().map(|(c, t, v, n)| json!({"candidate": c, "term": t, "votes": v, "voters": n})).collect::<Vec<_>>()}});
                     c.rec.online().report(c.now(), prop, sig, json!({"quiet_ms": plan.quiet_ms, "live": c.live_ids(), "roles": roles, "restart_failed": restart_failed}));
                 }
                 Some(l) => {
